@@ -231,6 +231,7 @@ def main(argv):
         "functions_under_contract": list(functions.values()),
         "units": unit_status,
         "path_covers_not_reached": unreached,
+        "assume_sites": assume_sites(pid),
         "samples": samples or [{"note": "no obligation discharged in this run"}],
         "explanation": (
             "Deductive part: every obligation listed was generated from the current source of the functions under contract and "
@@ -275,6 +276,21 @@ def main(argv):
     if out_lines or broken:
         return 1
     return 0
+
+
+def assume_sites(pid):
+    """mechanical scan: every `assume(` in the property's contract module, the shared harness modules and the library models
+    (preconditions, representation invariants, axiom instances, model facts) - nothing of this is proved"""
+    out = []
+    files = [f"contracts/{pid.lower()}.py", "contracts/common.py", "contracts/graph.py", "pyvc/models.py", "pyvc/models_jax.py"]
+    for rel in files:
+        path = os.path.join(ROOT, rel)
+        if not os.path.exists(path):
+            continue
+        for i, line in enumerate(open(path), 1):
+            if ".assume(" in line and not line.lstrip().startswith("#"):
+                out.append(f"{rel}:{i}: {line.strip()[:140]}")
+    return out
 
 
 def z3_version():
